@@ -1,51 +1,109 @@
 (* C08 — decode a case, run the model, encode the observable.
-   case: ( b c limit pre gz pattern file mode0 ( (path bytes) ... ) ( op ... ) )
-     pre: 1 = pre-processing trigger, 0 = SizeTrigger (post);  mode0: builder's append flag
-     op:  (0 record (0))      append, hook never fails
-          (0 record (1 k))    append, the rotate_step hook returns Err at its k-th call
-          (1 mode)            drop the appender, build a new one (append flag = mode)
-   result: "panic" | ( (ack ( listing ... ) listing) ... )  one entry per op:
-     ack 0 = Ok, 1 = Err; the directory at each hook call of the op; the directory after the op.
+   case: ( b c limit pre gz pattern file mode0 nohook ( (path bytes) ... ) ( op ... ) )
+     pre: 1 = pre-processing trigger (fires iff len > limit before the write),
+          0 = SizeTrigger(limit) (post-processing);  mode0: the builder's append flag;
+     nohook: 1 = the rotate_step hook is not installed at all (no images, no injected faults)
+     op:  (0 record (0))          append, hook never fails
+          (0 record (1 k))        append, the rotate_step hook returns Err at its k-th call
+          (0 record (2 k mode))   append during which the process dies at the k-th hook call;
+                                  a fresh appender (append flag = mode) is built on the crash
+                                  image.  When the k-th call is never reached the append
+                                  completes and the appender is restarted all the same.
+                                  Model: fault at k, then HRestart mode — a fault at step k leaves
+                                  exactly the crash image (Props/C08.v, C08_crash_image_is_fault_state)
+          (1 mode)                drop the appender, build a new one (append flag = mode)
+          (2)                     an operator error: a non-empty directory appears at the top
+                                  archive name (name (b+c-1), holding a file "keep")
+          (3)                     the directory is removed again
+   While the directory sits at the top archive name, the step that renames/compresses onto it
+   fails for real (EISDIR): the first step of a rotation, provided its source exists.  In the
+   model this is the fault `Some 0` of that rotation.
+   result: "panic" | ( (ack ( listing ... ) listing) ... )  entry 0 = the initial build, then one
+     entry per op: ack 0 = Ok, 1 = Err (or died); the directory at each hook call of the op;
+     the directory after the op.
    gzip archives are reported as 0x1f 0x8b ++ decompressed bytes (see Run/C07.v). *)
 From L4 Require Import Common.Val Common.FSModel Model.Window Model.Subst Model.RollFault.
 From L4 Require Import Run.C07.
 Local Open Scope N_scope.
 
-Definition dec_hop (v : vl) : option hop :=
+Inductive cop :=
+| CAppend (r : bytes) (fault : option nat) (restart : option bool)
+| CRestart (m : bool)
+| CObst (on : bool).
+
+Definition dec_cop (v : vl) : option cop :=
   match v with
-  | VL [VN 0; VS r; VL [VN 0]] => Some (HAppend r None)
-  | VL [VN 0; VS r; VL [VN _; VN k]] => Some (HAppend r (Some (N.to_nat k)))
-  | VL [VN _; VN m] => Some (HRestart (negb (m =? 0)))
+  | VL [VN 0; VS r; VL [VN 0]] => Some (CAppend r None None)
+  | VL [VN 0; VS r; VL [VN 1; VN k]] => Some (CAppend r (Some (N.to_nat k)) None)
+  | VL [VN 0; VS r; VL [VN 2; VN k; VN m]] => Some (CAppend r (Some (N.to_nat k)) (Some (negb (m =? 0))))
+  | VL [VN 1; VN m] => Some (CRestart (negb (m =? 0)))
+  | VL [VN 2] => Some (CObst true)
+  | VL [VN 3] => Some (CObst false)
   | _ => None
   end.
 
-Fixpoint run_c08 (name : N -> path) (cm : cmode) (file : path) (cf : cfg) (ops : list hop) (s : ast)
-  : option (list vl) :=
-  match ops with
-  | [] => Some []
-  | o :: rest =>
-    match step_hist name cm file cf o s with
-    | (s1, a, _, imgs) =>
-      match a with
-      | APanic => None
-      | _ => option_map
-               (cons (VL [VN (match a with AOk => 0 | _ => 1 end); VL (map enc_fs imgs); enc_fs (afs s1)]))
-               (run_c08 name cm file cf rest s1)
+Definition keep_path (top : path) : path := top ++ [47; 107; 101; 101; 112].   (* "/keep" *)
+
+Section Run.
+  Variable name : N -> path.
+  Variable cm : cmode.
+  Variable file : path.
+  Variable cf : cfg.
+  Variable limit : N.
+  Variable nohook : bool.
+
+  Definition top_name : path := name (c_base cf + (c_count cf - 1)).
+
+  Definition entry (a : ack) (imgs : list fs) (f : fs) : vl :=
+    VL [VN (match a with AOk => 0 | _ => 1 end);
+        VL (if nohook then [] else map enc_fs imgs); enc_fs f].
+
+  (* the step that moves onto the top name is step 0; it fails iff it has something to move *)
+  Definition obstructed (f : fs) : bool :=
+    if c_count cf =? 1 then true
+    else match lookup (name (c_base cf + (c_count cf - 2))) f with Some _ => true | None => false end.
+
+  Fixpoint run_c08 (ops : list cop) (obst : bool) (s : ast) : option (list vl) :=
+    match ops with
+    | [] => Some []
+    | CAppend r fault restart :: rest =>
+      let fault0 := if nohook then None else fault in
+      let eff := if obst && obstructed (afs s) then Some O else fault0 in
+      match step_hist name cm file cf (HAppend r (fun len => limit <? len) eff) s with
+      | (s1, a, _, imgs) =>
+        match a with
+        | APanic => None
+        | _ =>
+          let s2 := match restart with
+                    | Some m => build file m (afs s1)
+                    | None => s1
+                    end in
+          option_map (cons (entry a imgs (afs s2))) (run_c08 rest obst s2)
+        end
       end
-    end
-  end.
+    | CRestart m :: rest =>
+      let s1 := build file m (afs s) in
+      option_map (cons (entry AOk [] (afs s1))) (run_c08 rest obst s1)
+    | CObst on :: rest =>
+      let f1 := if on then write (keep_path top_name) [111; 98; 115; 116] (afs s)
+                else remove (keep_path top_name) (afs s) in
+      let s1 := {| afs := f1; wopen := wopen s |} in
+      option_map (cons (entry AOk [] f1)) (run_c08 rest on s1)
+    end.
+End Run.
 
 Definition c08_run (v : vl) : vl :=
   match v with
-  | VL [VN b; VN c; VN limit; VN pre; VN gz; VS pat; VS file; VN mode0; init; ops] =>
-    match val_list dec_pair init, val_list dec_hop ops with
+  | VL [VN b; VN c; VN limit; VN pre; VN gz; VS pat; VS file; VN mode0; VN nohook; init; ops] =>
+    match val_list dec_pair init, val_list dec_cop ops with
     | Some init, Some ops =>
       let name := archive_name [] pat in
       let cm : cmode := if gz =? 0 then None else Some gz_tag in
-      let cf := {| c_base := b; c_count := c; c_limit := limit; c_pre := negb (pre =? 0) |} in
+      let cf := {| c_base := b; c_count := c; c_pre := negb (pre =? 0) |} in
+      let nh := negb (nohook =? 0) in
       let s0 := build file (negb (mode0 =? 0)) (mkfs init) in
-      match run_c08 name cm file cf ops s0 with
-      | Some l => VL (VL [VN 0; VL []; enc_fs (afs s0)] :: l)
+      match run_c08 name cm file cf limit nh ops false s0 with
+      | Some l => VL (entry nh AOk [] (afs s0) :: l)
       | None => vpanic
       end
     | _, _ => VBad
